@@ -205,7 +205,8 @@ def run_case(case, tier):
     o = Obs(res)
     univ = U if case["n_types"] == 3 else U4
     try:
-        S = ApiSession(rig)
+        # every third case the client is a logger module: subscriptions work the same for it
+        S = ApiSession(rig, logger=bool(case.get("n", 0) % 3 == 1))
         try:
             if case["kind"] == "bfs":
                 for u in case["units"]:
